@@ -1180,9 +1180,40 @@ static void designation(Token **rest, Token *tok, Initializer *init) {
 // An array length can be omitted if an array has an initializer
 // (e.g. `int x[] = {1,2,3}`). If it's omitted, count the number
 // of initializer elements.
+static bool counting_initializers;
+
+// Skips an assignment-expression without parsing it.
+static Token *skip_assign_expr(Token *tok) {
+  int level = 0;
+  int cond = 0;
+
+  for (; tok->kind != TK_EOF; tok = tok->next) {
+    if (equal(tok, "(") || equal(tok, "[") || equal(tok, "{")) {
+      level++;
+    } else if (equal(tok, ")") || equal(tok, "]") || equal(tok, "}")) {
+      if (level == 0)
+        break;
+      level--;
+    } else if (level == 0) {
+      if (equal(tok, ";") || (equal(tok, ",") && cond == 0))
+        break;
+      if (equal(tok, "?"))
+        cond++;
+      else if (equal(tok, ":") && cond)
+        cond--;
+    }
+  }
+  return tok;
+}
+
 static int count_array_init_elements(Token *tok, Type *ty) {
   bool first = true;
   Initializer *dummy = new_initializer(ty->base, true);
+
+  // Scalar initializers are only skipped here; they are parsed when
+  // the array is initialized, once its length is known.
+  bool saved = counting_initializers;
+  counting_initializers = true;
 
   int i = 0, max = 0;
 
@@ -1204,6 +1235,8 @@ static int count_array_init_elements(Token *tok, Type *ty) {
     i++;
     max = MAX(max, i);
   }
+
+  counting_initializers = saved;
   return max;
 }
 
@@ -1438,6 +1471,11 @@ static void initializer2(Token **rest, Token *tok, Initializer *init) {
     return;
   }
 
+  if (counting_initializers) {
+    *rest = skip_assign_expr(tok);
+    return;
+  }
+
   init->expr = assign(rest, tok);
 }
 
@@ -1458,7 +1496,13 @@ static Type *copy_struct_type(Type *ty) {
 
 static Initializer *initializer(Token **rest, Token *tok, Type *ty, Type **new_ty) {
   Initializer *init = new_initializer(ty, true);
+
+  // This one is parsed in full even if it is part of an expression that
+  // is read only to count the elements of an enclosing initializer.
+  bool saved = counting_initializers;
+  counting_initializers = false;
   initializer2(rest, tok, init);
+  counting_initializers = saved;
 
   if ((ty->kind == TY_STRUCT || ty->kind == TY_UNION) && ty->is_flexible) {
     ty = copy_struct_type(ty);
